@@ -470,11 +470,17 @@ func checkLexDependents(c *Ctx, p *Prog, rule string) {
 		{"state item waits for something else", true, false, false, "ACC"},
 		{"state item waits for R, R still in progress", true, true, false, "(ACC + [&*this.Items[k+1]])"},
 		{"state item waits for R, R complete", true, true, true, "(ACC + [MoveRegDefId(&*this.Items[k+1],RID)])"},
+		{"state item expects a character literal that is printed like the name of the moved item's production", true, true, false, "ACC"},
 	} {
+		charlit := strings.Contains(wd.name, "character literal")
 		sm := map[string]Summary{
 			"*.ExpectedSymbol": func(r *Run, cc *ssa.CallCommon, args []Val) (Val, error) {
 				if !wd.waiting {
 					return VIface{}, nil
+				}
+				if charlit {
+					// 'a' is printed "'a'", which is also the id of the implicit production of the string literal "'a'"
+					return VIface{Dyn: types.NewPointer(astType(p, "LexCharLit")), V: VPtr{r.NewObj("RD", false), ""}}, nil
 				}
 				return VIface{Dyn: types.NewPointer(astType(p, "LexRegDefId")), V: VPtr{r.NewObj("RD", false), ""}}, nil
 			},
@@ -501,6 +507,9 @@ func checkLexDependents(c *Ctx, p *Prog, rule string) {
 			Lazy: func(o *Obj, path string, t types.Type) Val {
 				if strings.HasSuffix(path, ".Id") && !strings.Contains(o.Name, "RD") {
 					return VOpq{"RID"}
+				}
+				if strings.HasSuffix(path, ".Id") {
+					return VOpq{"EXPNAME"} // the name the waiting item refers to
 				}
 				return nil
 			}}
